@@ -332,6 +332,14 @@ class Evaluator:
         q = self.ctx.module['imports'].get(node.id)
         if node.id in ('True', 'False'):
             return const_bool(node.id == 'True')
+        if node.id in ('int', 'float', 'bool') and not self.ctx.spec_mode:
+            from . import prims
+            v = const_int(1000 + prims.DTYPE_IDS[node.id])
+            v.meta = ('dtype', node.id)
+            return v
+        from . import prims as _p
+        if node.id in _p.SPEC_CONSTS:
+            return _p.SPEC_CONSTS[node.id]()
         consts = self.ctx.module.get('constants', {})
         if node.id in consts:
             return self.eval(state, consts[node.id])
